@@ -2,6 +2,7 @@ import Proofs.Real
 import Proofs.Lemmas.Quat
 import Proofs.Lemmas.So3Exp
 import Proofs.Lemmas.Spline
+import Proofs.Lemmas.SplineExp
 import Proofs.Props.C03
 import Pose.Model.Traj
 import Mathlib.Tactic.Ring
@@ -1089,5 +1090,159 @@ theorem argmin?_first (l : List ℝ) (v : ℝ) (j : Nat) (h : argmin? l = some (
       simp only [List.getElem?_cons_succ] at hx
       have := argminFrom_first ys 1 y 0 (by omega) i' x hx (by rw [h]; simp; omega)
       rw [h] at this; exact this
+
+/-! ## collinear source points: the optimal alignment is never unique (pass 5, finding D43) -/
+
+/-- every point of `P` lies on the line `c + λ·u` (`u` a unit vector); covers straight-line motion, two distinct positions
+and all positions equal -/
+def Collinear (P : List (Vec3 ℝ)) : Prop :=
+  ∃ (c u : Vec3 ℝ), u.normSq = 1 ∧ ∀ p ∈ P, ∃ lam : ℝ, p = c.add (u.smul lam)
+
+/-- rotation about the line `c + λ·u` with half-angle `(sn, cs)`, as a similarity of unit scale -/
+noncomputable def lineRot (c u : Vec3 ℝ) (sn cs : ℝ) : Sim3 ℝ :=
+  ⟨c.sub ((Spline.axisQuat u sn cs).act c), Spline.axisQuat u sn cs, 1⟩
+
+theorem lineRot_valid (c u : Vec3 ℝ) (sn cs : ℝ) (hu : u.normSq = 1) (h : sn * sn + cs * cs = 1) :
+    Sim3.Valid (lineRot c u sn cs) := by
+  refine ⟨?_, by simp [lineRot]⟩
+  show (Spline.axisQuat u sn cs).normSq = 1
+  rw [Spline.axisQuat_normSq, hu]; linarith
+
+theorem axisQuat_act_axis (u : Vec3 ℝ) (sn cs : ℝ) (hu : u.normSq = 1) (h : sn * sn + cs * cs = 1) :
+    (Spline.axisQuat u sn cs).act u = u := by
+  have hu' : u.x * u.x + u.y * u.y + u.z * u.z = 1 := hu
+  unfold Spline.axisQuat
+  ext <;> lie_unfold <;> ring
+
+/-- the rotation about the line fixes every point of the line -/
+theorem lineRot_fixes (c u : Vec3 ℝ) (sn cs lam : ℝ) (hu : u.normSq = 1) (h : sn * sn + cs * cs = 1) :
+    Sim3Act (lineRot c u sn cs) (c.add (u.smul lam)) = c.add (u.smul lam) := by
+  unfold Sim3Act lineRot
+  simp only []
+  rw [Quat.act_add, Quat.act_smul, axisQuat_act_axis u sn cs hu h]
+  ext <;> simp [Vec3.add, Vec3.sub, Vec3.smul] <;> ring
+
+theorem map_lineRot_collinear (c u : Vec3 ℝ) (sn cs : ℝ) (hu : u.normSq = 1) (h : sn * sn + cs * cs = 1)
+    (P : List (Vec3 ℝ)) (hP : ∀ p ∈ P, ∃ lam : ℝ, p = c.add (u.smul lam)) :
+    P.map (Sim3Act (lineRot c u sn cs)) = P := by
+  conv_rhs => rw [← List.map_id P]
+  apply List.map_congr_left
+  intro p hp
+  obtain ⟨lam, rfl⟩ := hP p hp
+  rw [lineRot_fixes c u sn cs lam hu h]; rfl
+
+/-- **svdstf's freedom on collinear positions**: composing ANY transform with ANY rotation about the line of the source
+points leaves the alignment cost unchanged — every optimum comes with a whole circle of optima. -/
+theorem collinear_cost_invariant (T : Sim3 ℝ) (hT : Sim3.Valid T) (c u : Vec3 ℝ) (sn cs : ℝ) (hu : u.normSq = 1)
+    (h : sn * sn + cs * cs = 1) (P Q : List (Vec3 ℝ)) (hP : ∀ p ∈ P, ∃ lam : ℝ, p = c.add (u.smul lam)) :
+    cost (Sim3Mul T (lineRot c u sn cs)) P Q = cost T P Q := by
+  rw [← cost_map_act T _ hT (lineRot_valid c u sn cs hu h), map_lineRot_collinear c u sn cs hu h P hP]
+
+/-- **The `svdstf` contract cannot hold on collinear source positions**: optimality + uniqueness would force the half-turn about
+the line to be the identity. -/
+theorem alignOK_collinear_false' (rigid : Bool) (A : Sim3 ℝ) (P Q : List (Vec3 ℝ)) (hc : Collinear P)
+    (h : AlignOK rigid A P Q) : False := by
+  obtain ⟨c, u, hu, hP⟩ := hc
+  have h01 : (1 : ℝ) * 1 + 0 * 0 = 1 := by norm_num
+  have hv := lineRot_valid c u 1 0 hu h01
+  have hcost := collinear_cost_invariant A h.valid c u 1 0 hu h01 P Q hP
+  have heq := h.unique (Sim3Mul A (lineRot c u 1 0)) (Sim3_valid_mul _ _ h.valid hv)
+    (by intro hr; show A.s * 1 = 1; rw [h.scale_one hr]; ring) (le_of_eq hcost)
+  obtain ⟨_, _, hq⟩ := heq
+  have hAq : A.q.normSq = 1 := h.valid.1
+  -- cancel A.q on the left: the half-turn quaternion would be ±1
+  have key : ∀ r : Quat ℝ, A.q.mul (Spline.axisQuat u 1 0) = r → (Spline.axisQuat u 1 0) = A.q.conj.mul r := by
+    intro r hr
+    rw [← hr, ← Quat.mul_assoc', Quat.conj_mul, hAq]
+    ext <;> lie_unfold <;> ring
+  have hw : (Spline.axisQuat u 1 0).w = 0 := rfl
+  rcases hq with hq | hq
+  · have := key _ hq
+    rw [Quat.conj_mul, hAq] at this
+    have := congrArg Quat.w this
+    rw [hw] at this; norm_num at this
+  · have := key _ hq
+    have e : A.q.conj.mul A.q.neg = (A.q.conj.mul A.q).neg := Spline.Quat.mul_neg' _ _
+    rw [e, Quat.conj_mul, hAq] at this
+    have := congrArg Quat.w this
+    rw [hw] at this; simp [Quat.neg] at this
+
+/-! ## statements moved from Props/C19.lean (helpers / structural facts, pass 5) -/
+
+/-- **Option handling** (pass 3): `align`/`scale` take precedence over `origin`; `scale` alone already aligns (with scale);
+`with_scale` is exactly the `scale` flag. -/
+theorem modeOfFlags_spec (align scale origin : Bool) :
+    ((align = true ∨ scale = true) → modeOfFlags align scale origin = (.svd, scale)) ∧
+    (align = false → scale = false → origin = true → modeOfFlags align scale origin = (.origin, false)) ∧
+    (align = false → scale = false → origin = false → modeOfFlags align scale origin = (.none, false)) := by
+  cases align <;> cases scale <;> cases origin <;> simp [modeOfFlags]
+
+/-- `tr(AᵀB) = tr(ABᵀ)`: the angle of `R₁ᵀR₂` and of `R₁R₂ᵀ` have the same cosine -/
+theorem trace_transpose_mul (A B : Mat3 ℝ) : (A.transpose.mul B).trace = (A.mul B.transpose).trace := by
+  lie_unfold; ring
+
+/-- **Item-wise = batched** (hardening class 7): the loss of a batch is the list of the losses of its items, so an item's
+value cannot depend on the regime of its neighbours. -/
+theorem geodesicAll_append (eps : ℝ) (xs xs' ys ys' : List (Quat ℝ)) (h : xs.length = ys.length) :
+    geodesicAll eps (xs ++ xs') (ys ++ ys') = geodesicAll eps xs ys ++ geodesicAll eps xs' ys' := by
+  unfold geodesicAll
+  exact List.zipWith_append h
+
+/-- APE errors without alignment are computed pose by pose: concatenating trajectories concatenates the error lists. -/
+theorem apeCore_append (eps atol : ℝ) (alignFn : List (Vec3 ℝ) → List (Vec3 ℝ) → Sim3 ℝ) (et : EType)
+    (rp rp' ep ep' : List (SE3 ℝ)) (h : rp.length = ep.length) :
+    apeCore eps atol alignFn et .none (rp ++ rp') (ep ++ ep')
+      = apeCore eps atol alignFn et .none rp ep ++ apeCore eps atol alignFn et .none rp' ep' := by
+  unfold apeCore
+  simp only [transOf, List.map_append]
+  exact List.zipWith_append (by simpa using h)
+
+/-- all-zero errors: every statistic of the ℝ-model is zero (for a single error the model's `STD` is `√(0/0) = 0` by the
+convention `x/0 = 0`; the code returns NaN there — the property theorem `stats_zero` therefore asks for two errors) -/
+theorem stats_zero_raw (es : List ℝ) (h : ∀ e ∈ es, e = 0) :
+    (stats es).toList = [0, 0, 0, 0, 0, 0, 0] := by
+  have hrep : es = List.replicate es.length 0 := List.eq_replicate_iff.mpr ⟨rfl, h⟩
+  have ha : es.map sabs = List.replicate es.length 0 := by
+    rw [hrep, List.map_replicate, sabs_real, abs_zero, List.length_replicate]
+  have hsq : sqsum es = 0 := by
+    rw [sqsum_eq, hrep, List.map_replicate]; simp
+  have hsum : sumL (List.replicate es.length (0 : ℝ)) = 0 := by rw [sumL_eq_sum]; simp
+  have hmax : maxL (List.replicate es.length (0 : ℝ)) = 0 := by
+    apply le_antisymm
+    · exact maxL_le _ 0 le_rfl (fun y hy => le_of_eq (List.eq_of_mem_replicate hy))
+    · cases hl : es.length with
+      | zero => simp [maxL]
+      | succ n => exact maxL_ge _ 0 (by simp)
+  have hmin : minL (List.replicate es.length (0 : ℝ)) = 0 := by
+    apply le_antisymm
+    · cases hl : es.length with
+      | zero => simp [minL]
+      | succ n => exact minL_le _ 0 (by simp)
+    · exact minL_ge _ 0 le_rfl (fun y hy => le_of_eq (List.eq_of_mem_replicate hy).symm)
+  have hmed : (sortAsc (List.replicate es.length (0 : ℝ))).getD ((es.length - 1) / 2) (k 0) = 0 := by
+    by_cases hidx : (es.length - 1) / 2 < (sortAsc (List.replicate es.length (0 : ℝ))).length
+    · rw [List.getD_eq_getElem (hn := hidx)]
+      have := (sortAsc_perm _).mem_iff.mp (List.getElem_mem hidx)
+      exact List.eq_of_mem_replicate this
+    · rw [List.getD_eq_default _ _ (not_lt.mp hidx)]; simp
+  have hdev : sqsum ((List.replicate es.length (0 : ℝ)).map fun x => x - 0 / k es.length) = 0 := by
+    rw [List.map_replicate, sqsum_eq, List.map_replicate]; simp
+  simp only [Stats.toList, stats, ha, hsq, hsum, hdev, hmax, hmin, hmed]
+  simp
+
+/-- zero cost on identical point sets: every point is fixed by the transform -/
+theorem cost_zero_mem (T : Sim3 ℝ) (P : List (Vec3 ℝ)) (h : cost T P P = 0) :
+    ∀ p ∈ P, ((Sim3Act T p).sub p).normSq = 0 := by
+  induction P with
+  | nil => intro p hp; simp at hp
+  | cons x xs ih =>
+    unfold cost at h ih
+    simp only [List.zipWith_cons_cons, List.sum_cons] at h
+    have h1 := Vec3.normSq_nonneg ((Sim3Act T x).sub x)
+    have h2 : 0 ≤ (List.zipWith (fun p q => ((Sim3Act T p).sub q).normSq) xs xs).sum := cost_nonneg T xs xs
+    intro p hp
+    rcases List.mem_cons.mp hp with rfl | hp
+    · linarith
+    · exact ih (by linarith) p hp
 
 end PP.Traj
